@@ -39,6 +39,32 @@ extern "C" void h_qparams_rt(void) {
   verif_reach();
 }
 
+// C10.params_reuse: the same for a transform object that was used before (any earlier parameters, MORE or fewer
+// components): SetParameters replaces the whole state, the description attached afterwards is that of the new parameters
+extern "C" void h_qparams_reuse(void) {
+  AttributeQuantizationTransform t;
+  float mins0[NCOMP + 1]; for (int c = 0; c < NCOMP + 1; ++c) mins0[c] = nondet_float();
+  int n0 = nondet_i32(); verif_assume(n0 >= 1 && n0 <= NCOMP + 1);
+  int q0 = nondet_i32(); verif_assume(q0 >= 1 && q0 <= 30);
+  verif_assert(t.SetParameters(q0, mins0, n0, nondet_float()), "earlier use of the transform object");
+  int q = nondet_i32(); verif_assume(q >= 1 && q <= 30);
+  float mins[NCOMP]; for (int c = 0; c < NCOMP; ++c) mins[c] = nondet_float();
+  float range = nondet_float();
+  verif_assert(t.SetParameters(q, mins, NCOMP, range), "SetParameters accepts q in 1..30");
+  GeometryAttribute ga;
+  ga.Init(GeometryAttribute::POSITION, nullptr, NCOMP, DT_INT32, false, 4 * NCOMP, 0);
+  PointAttribute pa(ga);
+  pa.SetIdentityMapping();
+  pa.Reset(1);
+  verif_assert(t.TransferToAttribute(&pa), "TransferToAttribute");
+  AttributeQuantizationTransform u;
+  verif_assert(u.InitFromAttribute(pa), "InitFromAttribute reads the description back");
+  verif_assert(u.quantization_bits() == q, "quantization bits identical");
+  verif_assert(fbits(u.range()) == fbits(range), "range bit-identical (no stale state of the earlier use)");
+  for (int c = 0; c < NCOMP; ++c) verif_assert(fbits(u.min_value(c)) == fbits(mins[c]), "min value bit-identical");
+  verif_reach();
+}
+
 extern "C" void h_octparams_rt(void) {
   AttributeOctahedronTransform t;
   int q = nondet_i32(); verif_assume(q >= 2 && q <= 30);
